@@ -7,7 +7,7 @@ CONSTANTS N1, N2, N3, RootT, MaxLen
 RootShape == IF N3 = 0 THEN <<N1, N2>> ELSE <<N1, N2, N3>>
 VARIABLES st, prog
 vars == <<st, prog>>
-R == [shape |-> RootShape, T |-> RootT, comps |-> 0, timekind |-> "times"]
+R == [shape |-> RootShape, T |-> RootT, comps |-> 0, timekind |-> "times", dtype |-> "float64"]
 Init == st = InitState(R) /\ prog = <<>>
 Rois(s) == LET n == Len(s.box)
                Ax(a) == {<<x, y>> \in (-1..Extent(s, a)) \X (0..Extent(s, a) + 1) : x < y}
